@@ -86,6 +86,7 @@ type wobs struct {
 	Preserved bool              `json:"preserved"` // nothing outside recorded values changed
 	Diff      string            `json:"diff"`      // first difference outside recorded values
 	Added     []kv              `json:"added"`     // pom: dependencies inserted by the writer
+	Lost      []string          `json:"lost"`      // pom: recorded values that kept their text but lost inner tokens (comments)
 	SameBytes bool              `json:"same_bytes"`
 	Written   bool              `json:"written"`
 	In        string            `json:"in,omitempty"`
